@@ -147,7 +147,11 @@ func RaceMain(prefix string, rounds int, seed int64) {
 			}
 			pmu.Unlock()
 			if abandoned {
-				continue // the instances cannot be closed (the lock is held for good); their directories go with the scratch root
+				// the instances cannot be closed (the lock is held for good) and the threads of this round
+				// may still be running: nothing more can be run in this process without racing with them
+				fmt.Fprintf(os.Stderr, "VERIF-ROUNDS-DONE %d\n", round+1)
+				os.RemoveAll(core.ScratchRoot)
+				os.Exit(4)
 			}
 			for _, in := range insts {
 				func() {
@@ -235,15 +239,31 @@ func init() {
 		var errs []string
 		fatal := map[string]string{}
 		for _, hn := range harnessNames(prop + "/") {
-			cmd := exec.Command(bin, "racepass", hn, fmt.Sprint(rounds), fmt.Sprint(r.Seed))
-			cmd.Env = append(os.Environ(), "GORACE=halt_on_error=0 exitcode=0 history_size=2")
-			var buf bytes.Buffer
-			cmd.Stderr = &buf
-			cmd.Stdout = &buf
-			if err := cmd.Run(); err != nil {
+			// a child that had to stop early (a panic poisoned a round, or the Go runtime aborted it) is
+			// started again, a few times, for the rounds that are left
+			left, o := rounds, ""
+			for attempt := 0; attempt < 5 && left > 0; attempt++ {
+				cmd := exec.Command(bin, "racepass", hn, fmt.Sprint(left), fmt.Sprint(r.Seed+int64(attempt)*1000))
+				cmd.Env = append(os.Environ(), "GORACE=halt_on_error=0 exitcode=0 history_size=2")
+				var buf bytes.Buffer
+				cmd.Stderr = &buf
+				cmd.Stdout = &buf
+				err := cmd.Run()
+				o += buf.String()
+				if err == nil {
+					left = 0
+					break
+				}
 				errs = append(errs, hn+": "+err.Error())
+				done := 1
+				if m := regexp.MustCompile(`VERIF-ROUNDS-DONE (\d+)`).FindStringSubmatch(buf.String()); m != nil {
+					fmt.Sscan(m[1], &done)
+				}
+				left -= done
+				if strings.Contains(buf.String(), "VERIF-BLOCKED harness") {
+					break
+				}
 			}
-			o := buf.String()
 			out.WriteString(o)
 			if i := strings.Index(o, "\nfatal error: "); i >= 0 {
 				msg := o[i+len("\nfatal error: "):]
